@@ -380,7 +380,7 @@ func engineOwSim(rc *RunCtx) *Outcome {
 	o.Sample = map[string]interface{}{"models_with_batches": modelNames, "generations": c.G, "timesteps": c.T, "links": len(c.links),
 		"args": c.args, "flags": fmt.Sprintf("%+v", c.flags), "disk_latency": ctl.Latency}
 	var retSeq int64 = -1
-	s := simrt.Run(rc.T, simrt.Config{TraceCap: 0}, rc.S, func() {
+	s := simrt.Run(rc.T, simrt.Config{TraceCap: 0, DeepPct: 20}, rc.S, func() {
 		owsim.VerifRunSimulation(c.args)
 		retSeq = simrt.NextSeq()
 	})
